@@ -138,7 +138,7 @@ def workdir():
     return tempfile.mkdtemp(prefix="fjv-", dir=base)
 
 
-def run_fjv(prog_text, dbdir=None, env_extra=None, timeout=120, keep=False):
+def run_fjv(prog_text, dbdir=None, env_extra=None, timeout=120, keep=False, retry=True):
     """Runs a program through the implementation; returns (dict lineno->result, raw stdout, returncode)."""
     own = dbdir is None
     wd = workdir()
@@ -167,7 +167,7 @@ def run_fjv(prog_text, dbdir=None, env_extra=None, timeout=120, keep=False):
         # a run that hit the process time limit, or an operation that hit the interpreter's default 30 s limit, on a fresh
         # directory: the machine may simply be overloaded — run it once more with every limit x5 before anybody judges it
         # (a genuine hang hits the larger limits as well).  Not done when the caller manages the directory or set its own limit.
-        if own and (rc == -99 or ("FJV_SYNC_TIMEOUT_MS" not in env and " err timeout" in out)) and not patient:
+        if retry and own and (rc == -99 or ("FJV_SYNC_TIMEOUT_MS" not in env and " err timeout" in out)) and not patient:
             shutil.rmtree(dbd, ignore_errors=True)
             env2 = dict(env)
             env2.setdefault("FJV_SYNC_TIMEOUT_MS", "150000")
